@@ -93,7 +93,16 @@ func pureExpr(sc *ssa.Function) bool {
 	for _, b := range sc.Blocks {
 		for _, ins := range b.Instrs {
 			switch x := ins.(type) {
-			case *ssa.Store, *ssa.MapUpdate, *ssa.Send, *ssa.Go, *ssa.Defer:
+			case *ssa.Store:
+				// a parameter spilled to a local of the function (value receivers whose address is taken) is
+				// not an effect
+				if al, ok := x.Addr.(*ssa.Alloc); ok && !al.Heap {
+					if _, isParam := x.Val.(*ssa.Parameter); isParam {
+						continue
+					}
+				}
+				return false
+			case *ssa.MapUpdate, *ssa.Send, *ssa.Go, *ssa.Defer:
 				return false
 			case *ssa.Call:
 				if bi, ok := x.Call.Value.(*ssa.Builtin); !ok || (bi.Name() != "len" && bi.Name() != "cap") {
